@@ -133,6 +133,110 @@ fn concurrent_digests(cases: &Arc<Vec<Case>>, threads: usize) -> Vec<Vec<Result<
     hs.into_iter().map(|h| h.join().unwrap_or_default()).collect()
 }
 
+/// (f) history independence at instruction level: the same (instruction, state) evaluated
+/// (1) in a forward sequence on one thread, (2) in the reverse sequence on another thread,
+/// (3) alone on a brand-new thread. A hidden cache / static / thread-local consulted by any
+/// instruction makes the three disagree.
+fn history_independence(ctx: &mut Ctx, alphabet: &[String]) {
+    use crate::mon::step_named;
+    let per_name = ctx.n(24, 120);
+    let mut case: u64 = 0;
+    for name in alphabet.iter() {
+        case += 1;
+        if !ctx.mine(case) {
+            continue;
+        }
+        ctx.rec.case_marker(8_000_000 + case, &format!("history independence {}", name));
+        // states: small valid-ish operands; topology instructions get realistic operands
+        let mut states: Vec<Snap> = vec![];
+        // instructions built on shared helper code with internal tables get more states
+        let reps = if name.starts_with("LIST.NEIGHBOR") { per_name * 6 } else { per_name };
+        for k in 0..reps as u64 {
+            let mut r = Rng::derive(ctx.seed, &[14, 6, case, k]);
+            let mut s = gen::snap(&mut r, &StateOpts { vals: Vals::Small, max_depth: 4, graphs: false, io: true, bindings: true, flags: false, random_cfg: false }, alphabet);
+            if name.starts_with("LIST.NEIGHBOR") {
+                let size = r.range(2, 40) as i32;
+                let dims = r.range(1, 3) as i32;
+                let index = if r.bool() { size - 1 - r.below(3) as i32 } else { r.below(size as usize) as i32 };
+                s.i.insert(0, dims);
+                s.i.insert(0, index);
+                s.i.insert(0, size);
+                if name != "LIST.NEIGHBOR*IDS" {
+                    s.i.insert(0, r.below(2) as i32);
+                }
+                s.f.insert(0, fb(*r.pick(&[1.0f32, 1.5, 2.0, 1.4142135])));
+                s.c = (0..r.below(8)).map(|j| SItem::List(vec![SItem::Int(j as i32), SItem::Bool(j % 2 == 0), SItem::Float(fb(j as f32))])).collect();
+            }
+            s.e.clear();
+            states.push(s);
+        }
+        let eval_seq = |order: Vec<usize>, states: Vec<Snap>, name: String| -> Vec<(usize, Result<u64, String>)> {
+            let (mut is, _n) = new_iset();
+            let cache = sorted_cache(&is);
+            order
+                .into_iter()
+                .map(|k| {
+                    let mut st = build_state(&states[k]);
+                    let o = step_named(&mut st, &mut is, &cache, &name);
+                    (k, match o.panic { Some(p) => Err(p), None => Ok(Snap::of(&st).digest()) })
+                })
+                .collect()
+        };
+        let n = states.len();
+        let fwd: Vec<usize> = (0..n).collect();
+        let rev: Vec<usize> = (0..n).rev().collect();
+        let (s1, s2, nm1, nm2) = (states.clone(), states.clone(), name.clone(), name.clone());
+        let a = std::thread::spawn(move || eval_seq(fwd, s1, nm1)).join().unwrap_or_default();
+        let b = std::thread::spawn(move || {
+            let (mut is, _n) = new_iset();
+            let cache = sorted_cache(&is);
+            rev.into_iter()
+                .map(|k| {
+                    let mut st = build_state(&s2[k]);
+                    let o = step_named(&mut st, &mut is, &cache, &nm2);
+                    (k, match o.panic { Some(p) => Err(p), None => Ok(Snap::of(&st).digest()) })
+                })
+                .collect::<Vec<(usize, Result<u64, String>)>>()
+        })
+        .join()
+        .unwrap_or_default();
+        let mut by_k_a: BTreeMap<usize, Result<u64, String>> = a.into_iter().collect();
+        let by_k_b: BTreeMap<usize, Result<u64, String>> = b.into_iter().collect();
+        for k in 0..n {
+            ctx.rec.count("history_comparisons", 1);
+            ctx.rec.count("runs", 2);
+            let ra = by_k_a.remove(&k);
+            let rb = by_k_b.get(&k).cloned();
+            // (3) alone on a brand-new thread (every 3rd state)
+            let rc = if k % 3 == 0 {
+                let (sx, nx) = (states[k].clone(), name.clone());
+                ctx.rec.count("runs", 1);
+                std::thread::spawn(move || {
+                    let (mut is, _n) = new_iset();
+                    let cache = sorted_cache(&is);
+                    let mut st = build_state(&sx);
+                    let o = step_named(&mut st, &mut is, &cache, &nx);
+                    match o.panic { Some(p) => Err(p), None => Ok(Snap::of(&st).digest()) }
+                })
+                .join()
+                .ok()
+            } else {
+                rb.clone()
+            };
+            if ra != rb || rb != rc {
+                ctx.rec.violation(
+                    "C14",
+                    &format!("{}|history-dependent", name),
+                    &format!("{} on the same state gives different results depending on what ran before on the thread: forward sequence {:?}, reverse sequence {:?}, alone on a new thread {:?} ; state {}", name, ra, rb, rc, states[k].summary()),
+                    "",
+                );
+                break;
+            }
+        }
+        ctx.rec.cover(&format!("hist|{}", name));
+    }
+}
+
 pub fn run(ctx: &mut Ctx) {
     let (_is, names) = new_iset();
     let alphabet = deterministic_alphabet(&names);
@@ -171,8 +275,12 @@ pub fn run(ctx: &mut Ctx) {
     for (k, c) in mine.iter() {
         ctx.rec.case_marker(*k, &format!("determinism case {}", c.init.e[0]));
         crate::props::c01::ENV_EXIT.with(|e| e.set(false));
+        let a0 = crate::alloc::mark();
         let d1 = run_case(c, true);
-        if crate::props::c01::ENV_EXIT.with(|e| e.get()) {
+        let peak = crate::alloc::stats().peak.saturating_sub(a0.live);
+        // cases that build large structures are left out: 16 of them at once would be a memory
+        // test, not a determinism test
+        if crate::props::c01::ENV_EXIT.with(|e| e.get()) || peak > (8 << 20) {
             ctx.rec.count("outside_envelope_skipped", 1);
             continue;
         }
@@ -250,6 +358,11 @@ pub fn run(ctx: &mut Ctx) {
         if t == 16 {
             ctx.rec.sample("node-ids", &format!("{} threads x {} creations: first ids per thread {:?}", t, m, logs.iter().map(|l| l.first().copied().unwrap_or(0)).collect::<Vec<_>>()));
         }
+    }
+    // (f) instruction-level history independence
+    if mode != "tsan" {
+        history_independence(ctx, &alphabet);
+        ctx.rec.checkpoint();
     }
     // (e) CLI cases for the driver: terminating programs, the library's final CODE / INT text
     if mode != "tsan" && ctx.shard == 0 {
